@@ -150,10 +150,15 @@ def run_reentry():
             except Exception as e:
                 inner.append(type(e).__name__)
         return 3
-    out = spinner.run(2, function)
-    ok = inner == ["ReentryError", "ReentryError"] and out == 3 and not reactor.getDelayedCalls()
-    # and the spinner is usable afterwards
-    ok = ok and spinner.run(2, lambda: 4) == 4
+    try:
+        out = spinner.run(2, function)
+        ok = inner == ["ReentryError", "ReentryError"] and out == 3 and not reactor.getDelayedCalls()
+        # and the spinner is usable afterwards
+        ok = ok and spinner.run(2, lambda: 4) == 4
+    except Exception as e:
+        ch.LAST["problems"] = ["nested attempts %r; outer run raised %r" % (inner, e)]
+        return False
+    ch.LAST["problems"] = [] if ok else ["nested attempts %r, outer result %r" % (inner, out)]
     return ok
 
 
